@@ -1,7 +1,7 @@
 (* C08 — the statements are false of the model of the PINNED tree (Cfg.pinned_cfg = snapshot 5024b31, before the
    fix: commits): concrete witnesses by computation.  They document what the machinery found and keep the
    discriminating power of the theorems visible: the same statements hold for the repaired configuration. *)
-From G08 Require Import Cfg Spec Proofs.
+From G08 Require Import Cfg Spec Proofs ConnOps.
 Open Scope N_scope.
 
 Definition sock0 : addr := tcp [0;0;0;0;0;0;0;0;0;0;255;255;127;0;0;1] 50000%Z.
@@ -49,3 +49,9 @@ Proof.
     right; left. split; [vm_compute; reflexivity | vm_compute; repeat constructor].
   - vm_compute. reflexivity.
 Qed.
+
+Lemma ops_example :
+  map snd (snd (ConnOps.run src_cfg sock0 sock0 [ConnOps.OpRead 2; ConnOps.OpRemote; ConnOps.OpRead 64; ConnOps.OpRead 64]
+                    (ConnOps.cinit [b "PROXY TCP4 1.1.1.1 2."; b "2.2.2 1000 2000" ++ CRLF ++ b "GE"; b "T /"]))) =
+  [ConnOps.ORead (b "GE") false; ConnOps.OAddr (Some (tcp (v4in6 [1;1;1;1]) 1000%Z)); ConnOps.ORead (b "T /") false; ConnOps.ORead [] true].
+Proof. vm_compute. reflexivity. Qed.
